@@ -140,6 +140,9 @@ def run(rep):
     core.import_rules(rep, "c07", {"LOCKSTEP", "AHO-OVERLAP"})
     core.import_rules(rep, "c08", {"MEMBER-ONCE"})
     core.import_rules(rep, "c02", {"T-CONJ"})
+    # list members are lowered one by one: what one member contributes must not depend on where it stands (T-LOWER cast flag per member)
+    core.import_rules(rep, "c02", {"T-LOWER"}, key_prefixes=("T-LOWER/cast-flag",))
+    core.import_rules(rep, "c16", {"PROV-SYNTH"})
     core.import_rules(rep, "c06", {"TRI-MATRIX", "TRI-OR", "TRI-AND", "TRI-OF", "TRI-ALL"})
     core.import_rules(rep, "c01", {"ORDER-AND", "LAW"}, key_prefixes=("ORDER-AND/shake_0/", "LAW/shake_0/flatten", "LAW/shake_0/group-of-one", "LAW/or-symmetric", "LAW/shake_1/nested-merge"))
     core.import_rules(rep, "c10", {"NESTED-MODEL", "T-NESTED"})
